@@ -829,6 +829,50 @@ pub fn one_run(ctx: &Ctx, out: &mut Outcome, run_seed: u64) {
             json!({"property": "C06", "engine": ctx.engine, "run_seed": format!("{:#x}", run_seed), "history_tail": history.iter().rev().take(30).rev().collect::<Vec<_>>()}),
         );
     }
+    // a victim that is still connected keeps working: whatever the hostile slices left behind on its unreliable channel is
+    // an incomplete fragment at most, so after more than 3 s without any arrival and a full drain the channel accounts
+    // nothing (a reservation that outlives this is lost budget: honest messages are refused for the rest of the session)
+    if !sim.disconnected(victim, role) && !out.should_stop() {
+        let id = sim.ids[victim];
+        let quiet = watchdog::catch(|| {
+            let dt = std::time::Duration::from_millis(3100);
+            match role {
+                Side::Client => {
+                    sim.clients[victim].update(dt);
+                    for spec in chans.iter() {
+                        while sim.clients[victim].receive_message(spec.id).is_some() {}
+                    }
+                }
+                Side::Server => {
+                    sim.server.update(dt);
+                    for spec in chans.iter() {
+                        while sim.server.receive_message(id, spec.id).is_some() {}
+                    }
+                }
+            }
+        });
+        if let Err(c) = quiet {
+            report_later_panic(ctx, out, &sim, &c, run_seed, &history, "update / receive_message after the hostile phase");
+            return;
+        }
+        if let Some(e) = sim.endpoint(victim, role) {
+            if !e.is_disconnected() {
+                out.count("victim_quiet_3s_and_drained");
+                let held = e.verif_receive_memory(CH_U).unwrap_or(0);
+                if held > 0 {
+                    out.violation(
+                        ctx,
+                        "C06/unreliable-receive-budget-lost-after-hostile-slices",
+                        "subsequent API calls on that endpoint keep working and the memory accounted to partially reassembled data stays within what is really buffered",
+                        format!("the victim stayed connected; 3.1 s after the last arrival and a full drain its unreliable channel still accounts {} bytes", held),
+                        json!({"property": "C06", "engine": ctx.engine, "run_seed": format!("{:#x}", run_seed), "role": format!("{:?}", role), "state": state,
+                               "history_tail": history.iter().rev().take(30).rev().collect::<Vec<_>>()}),
+                    );
+                    return;
+                }
+            }
+        }
+    }
     if out.samples.len() < out.max_samples {
         out.sample(json!({"run_seed": format!("{:#x}", run_seed), "role": format!("{:?}", role), "state": state, "injected": injected,
                           "victim_end_status": format!("{:?}", status_of(&sim, victim, role)), "first_injections": history.iter().take(6).collect::<Vec<_>>()}));
